@@ -238,6 +238,11 @@ class LenClass:
                 if seq.op == "Zip":
                     return self._joinall(seq.args, n, "sequences zipped into one batch")
                 return self.of(seq)
+            seq = n.extra.get("seq") if n.extra else None
+            if seq is not None:
+                if seq.op == "Zip":
+                    return self._joinall(seq.args, n, "sequences zipped into one batch")
+                return self.of(seq)
             return TOP
         if op == "Attr":
             if n.attr in ("T", "real", "imag", "value", "data"):
